@@ -560,7 +560,7 @@ func convCases(x interface{}, tags []string, envOps bool) []Case {
 	if envOps {
 		ops = append(ops, "tenv", "venv")
 	}
-	var tyOut, vlOut convOut
+	var tyOut, vlOut, teOut, veOut convOut
 	for _, op := range ops {
 		c := Case{Human: op + " " + human, Tags: append([]string{"op:" + op}, tags...), Nontriv: true}
 		first := runConvOp(op, x)
@@ -569,6 +569,12 @@ func convCases(x interface{}, tags []string, envOps bool) []Case {
 		}
 		if op == "val" {
 			vlOut = first
+		}
+		if op == "tenv" {
+			teOut = first
+		}
+		if op == "venv" {
+			veOut = first
 		}
 		cls := "ok"
 		if first.failed {
@@ -642,8 +648,73 @@ func convCases(x interface{}, tags []string, envOps bool) []Case {
 			add("conv-error-missing", fmt.Sprintf("nesting %d beyond the limit %d was converted", facts.maxLevel, conv.MaxLevelHook))
 		}
 	}
+	// the two environments of ONE host value agree name by name: the type environment says, for
+	// every name, the type of the value the value environment binds (a nil field is `maybe[T]` in
+	// both, a non-nil one `T` in both)
+	if envOps && teOut.tenv != nil && veOut.venv != nil && !teOut.failed && !veOut.failed {
+		if bad := envsAgree(teOut.tenv, veOut.venv); bad != "" {
+			add("conv-type-disagrees", bad)
+		}
+	}
 	if isNilTop(x) && x == nil && tyOut.panic == "" && !tyOut.failed {
 		add("conv-error-missing", "TypeOf(nil) succeeded")
+	}
+	return out
+}
+
+// envsAgree: every name of the type environment is bound, in the value environment of the same
+// host value, to a value of exactly that type ("" = they agree)
+func envsAgree(tenv *types.Env, venv *val.Env) string {
+	return safely(func() string {
+		msg := ""
+		tenv.ForEach(func(name string, ty *types.Type) {
+			if msg != "" {
+				return
+			}
+			v, ok := venv.Get(name)
+			switch {
+			case !ok:
+				msg = fmt.Sprintf("TypeEnvOf declares %s : %s, ValEnvOf does not bind it", name, ty)
+			case !sameTy(ty, v.Type) || !types.Equals(ty, v.Type):
+				msg = fmt.Sprintf("TypeEnvOf declares %s : %s, ValEnvOf binds a value of type %s", name, ty, v.Type)
+			}
+		})
+		return msg
+	})
+}
+
+// envHistoryCase: the same Go struct type as environment several times in a row with different
+// contents (nil-able fields filled, then nil, then filled again): each time the two environments
+// of the value at hand must agree — nothing may be remembered from an earlier value of that type.
+func envHistoryCase(vs []reflect.Value) []Case {
+	var out []Case
+	for i, v := range vs {
+		if v.Kind() != reflect.Struct {
+			return out
+		}
+		x := v.Interface()
+		human := fmt.Sprintf("env history #%d %s", i, humanGo(v))
+		c := Case{Human: human, Want: "agree", Tags: []string{"stability:env-history"}}
+		func() {
+			defer func() {
+				if r := recover(); r != nil {
+					c.OracleID, c.Oracle = "conv-panic", fmt.Sprintf("environment conversion panics: %v", r)
+				}
+			}()
+			te, err1 := conv.TypeEnvOf(x)
+			ve, err2 := conv.ValEnvOf(x)
+			switch {
+			case err1 != nil && err2 == nil:
+				// (the converse is by design: TypeEnvOf falls back to the static type of data
+				// that ValEnvOf refuses, e.g. a nil inside an array)
+				c.OracleID, c.Oracle = "conv-type-disagrees", fmt.Sprintf("ValEnvOf succeeds but TypeEnvOf fails: %v", err1)
+			case err1 == nil && err2 == nil:
+				if bad := envsAgree(te, ve); bad != "" {
+					c.OracleID, c.Oracle = "conv-type-disagrees", bad
+				}
+			}
+		}()
+		out = append(out, c)
 	}
 	return out
 }
@@ -677,6 +748,7 @@ func stabilityCases(r *rand.Rand) []Case {
 		}
 		return t
 	}
+	out = append(out, envHistoryCase([]reflect.Value{v1, v3, v2, v3})...)
 	t1, t2 := check(v1, "sample1"), check(v2, "sample2")
 	c := Case{Human: "stable " + rt.String(), Want: "stable", Tags: []string{"stability:checked"}}
 	if t1 != nil && t2 != nil {
